@@ -1,0 +1,155 @@
+//go:build verif
+
+/*
+ Licensed to the Apache Software Foundation (ASF) under one
+ or more contributor license agreements.  See the NOTICE file
+ distributed with this work for additional information
+ regarding copyright ownership.  The ASF licenses this file
+ to you under the Apache License, Version 2.0 (the
+ "License"); you may not use this file except in compliance
+ with the License.  You may obtain a copy of the License at
+
+     http://www.apache.org/licenses/LICENSE-2.0
+
+ Unless required by applicable law or agreed to in writing, software
+ distributed under the License is distributed on an "AS IS" BASIS,
+ WITHOUT WARRANTIES OR CONDITIONS OF ANY KIND, either express or implied.
+ See the License for the specific language governing permissions and
+ limitations under the License.
+*/
+
+package ugm
+
+import (
+	"sort"
+
+	"github.com/apache/yunikorn-core/pkg/common/resources"
+)
+
+// Verification hooks (build tag verif): read-only access to the unexported tracker state of the manager.
+
+// VerifNode is one queue tracker of a user or group tracker (flattened, parents first, children by name).
+type VerifNode struct {
+	Path     string
+	Usage    *resources.Resource // nil when the tracker never counted anything
+	Apps     []string
+	MaxRes   *resources.Resource
+	MaxApps  uint64
+	WildCard bool
+}
+
+// VerifTracker is a user tracker (AppGroups: application -> resolved group, "" for "resolved to none") or a
+// group tracker (AppUsers: application -> user).
+type VerifTracker struct {
+	Name      string
+	Nodes     []VerifNode
+	AppGroups map[string]string
+	AppUsers  map[string]string
+}
+
+// VerifLimit is a LimitConfig.
+type VerifLimit struct {
+	MaxRes  *resources.Resource
+	MaxApps uint64
+}
+
+// VerifManagerState is the complete state of the manager.
+type VerifManagerState struct {
+	Users            []VerifTracker
+	Groups           []VerifTracker
+	UserLimits       map[string]map[string]VerifLimit
+	GroupLimits      map[string]map[string]VerifLimit
+	UserWildCard     map[string]VerifLimit
+	GroupWildCard    map[string]VerifLimit
+	ConfiguredGroups map[string][]string
+}
+
+func verifFlatten(qt *QueueTracker, out []VerifNode) []VerifNode {
+	if qt == nil {
+		return out
+	}
+	apps := make([]string, 0, len(qt.runningApplications))
+	for a := range qt.runningApplications {
+		apps = append(apps, a)
+	}
+	sort.Strings(apps)
+	out = append(out, VerifNode{Path: qt.queuePath, Usage: qt.resourceUsage.Clone(), Apps: apps, MaxRes: qt.maxResources.Clone(),
+		MaxApps: qt.maxRunningApps, WildCard: qt.useWildCard})
+	names := make([]string, 0, len(qt.childQueueTrackers))
+	for n := range qt.childQueueTrackers {
+		names = append(names, n)
+	}
+	sort.Strings(names)
+	for _, n := range names {
+		out = verifFlatten(qt.childQueueTrackers[n], out)
+	}
+	return out
+}
+
+func verifLimits(in map[string]*LimitConfig) map[string]VerifLimit {
+	out := make(map[string]VerifLimit, len(in))
+	for k, v := range in {
+		if v != nil {
+			out[k] = VerifLimit{MaxRes: v.maxResources.Clone(), MaxApps: v.maxApplications}
+		}
+	}
+	return out
+}
+
+// VerifState dumps the manager: every user and group tracker with its queue trackers, and the limit maps of the
+// active configuration.
+func (m *Manager) VerifState() *VerifManagerState {
+	m.RLock()
+	defer m.RUnlock()
+	st := &VerifManagerState{
+		UserLimits:       map[string]map[string]VerifLimit{},
+		GroupLimits:      map[string]map[string]VerifLimit{},
+		UserWildCard:     verifLimits(m.userWildCardLimitsConfig),
+		GroupWildCard:    verifLimits(m.groupWildCardLimitsConfig),
+		ConfiguredGroups: map[string][]string{},
+	}
+	for p, l := range m.userLimits {
+		st.UserLimits[p] = verifLimits(l)
+	}
+	for p, l := range m.groupLimits {
+		st.GroupLimits[p] = verifLimits(l)
+	}
+	for p, g := range m.configuredGroups {
+		st.ConfiguredGroups[p] = append([]string{}, g...)
+	}
+	unames := make([]string, 0, len(m.userTrackers))
+	for n := range m.userTrackers {
+		unames = append(unames, n)
+	}
+	sort.Strings(unames)
+	for _, n := range unames {
+		ut := m.userTrackers[n]
+		ut.RLock()
+		t := VerifTracker{Name: ut.userName, Nodes: verifFlatten(ut.queueTracker, nil), AppGroups: map[string]string{}}
+		for app, gt := range ut.appGroupTrackers {
+			if gt != nil {
+				t.AppGroups[app] = gt.groupName
+			} else {
+				t.AppGroups[app] = ""
+			}
+		}
+		ut.RUnlock()
+		st.Users = append(st.Users, t)
+	}
+	gnames := make([]string, 0, len(m.groupTrackers))
+	for n := range m.groupTrackers {
+		gnames = append(gnames, n)
+	}
+	sort.Strings(gnames)
+	for _, n := range gnames {
+		gt := m.groupTrackers[n]
+		gt.RLock()
+		t := VerifTracker{Name: gt.groupName, Nodes: verifFlatten(gt.queueTracker, nil), AppUsers: map[string]string{}}
+		for app, u := range gt.applications {
+			t.AppUsers[app] = u
+		}
+		gt.RUnlock()
+		st.Groups = append(st.Groups, t)
+	}
+	return st
+}
